@@ -461,7 +461,7 @@ func (runInfo *runInfoStruct) makeCallArgs(rt reflect.Type, isRunVMFunction bool
 		if isRunVMFunction {
 			args = append(args, reflect.ValueOf(detachValue(runInfo.rv)))
 		} else {
-			runInfo.rv, runInfo.err = runInfo.convertArg(runInfo.rv, rt.In(indexInReal))
+			runInfo.rv, runInfo.err = runInfo.convertArg(detachValue(runInfo.rv), rt.In(indexInReal))
 			if runInfo.err != nil {
 				runInfo.err = newStringError(callExpr.SubExprs[indexExpr],
 					"function wants argument type "+rt.In(indexInReal).String()+" but received type "+runInfo.rv.Type().String())
@@ -489,7 +489,7 @@ func (runInfo *runInfoStruct) makeCallArgs(rt reflect.Type, isRunVMFunction bool
 		if isRunVMFunction {
 			args = append(args, reflect.ValueOf(detachValue(runInfo.rv)))
 		} else {
-			runInfo.rv, runInfo.err = runInfo.convertArg(runInfo.rv, rt.In(indexInReal))
+			runInfo.rv, runInfo.err = runInfo.convertArg(detachValue(runInfo.rv), rt.In(indexInReal))
 			if runInfo.err != nil {
 				runInfo.err = newStringError(callExpr.SubExprs[indexExpr],
 					"function wants argument type "+rt.In(indexInReal).String()+" but received type "+runInfo.rv.Type().String())
@@ -528,7 +528,7 @@ func (runInfo *runInfoStruct) makeCallArgs(rt reflect.Type, isRunVMFunction bool
 			if isRunVMFunction {
 				args = append(args, reflect.ValueOf(detachValue(sliceV.Index(indexSlice))))
 			} else {
-				runInfo.rv, runInfo.err = runInfo.convertArg(sliceV.Index(indexSlice), rt.In(indexInReal))
+				runInfo.rv, runInfo.err = runInfo.convertArg(detachValue(sliceV.Index(indexSlice)), rt.In(indexInReal))
 				if runInfo.err != nil {
 					runInfo.err = newStringError(callExpr.SubExprs[indexExpr],
 						"function wants argument type "+rt.In(indexInReal).String()+" but received type "+runInfo.rv.Type().String())
@@ -562,7 +562,7 @@ func (runInfo *runInfoStruct) makeCallArgs(rt reflect.Type, isRunVMFunction bool
 		if isRunVMFunction {
 			args = append(args, reflect.ValueOf(detachValue(runInfo.rv)))
 		} else {
-			runInfo.rv, runInfo.err = runInfo.convertArg(runInfo.rv, rt.In(indexInReal))
+			runInfo.rv, runInfo.err = runInfo.convertArg(detachValue(runInfo.rv), rt.In(indexInReal))
 			if runInfo.err != nil {
 				runInfo.err = newStringError(callExpr.SubExprs[indexExpr],
 					"function wants argument type "+rt.In(indexInReal).String()+" but received type "+runInfo.rv.Type().String())
@@ -583,7 +583,7 @@ func (runInfo *runInfoStruct) makeCallArgs(rt reflect.Type, isRunVMFunction bool
 			if runInfo.err != nil {
 				return nil, false
 			}
-			runInfo.rv, runInfo.err = runInfo.convertArg(runInfo.rv, sliceType)
+			runInfo.rv, runInfo.err = runInfo.convertArg(detachValue(runInfo.rv), sliceType)
 			if runInfo.err != nil {
 				runInfo.err = newStringError(callExpr.SubExprs[indexExpr],
 					"function wants argument type "+rt.In(indexInReal).String()+" but received type "+runInfo.rv.Type().String())
